@@ -15,6 +15,13 @@ import (
 	"time"
 )
 
+func envStr(name, def string) string {
+	if v := os.Getenv(name); v != "" {
+		return v
+	}
+	return def
+}
+
 func envInt(name string, def int64) int64 {
 	if v := os.Getenv(name); v != "" {
 		if n, err := strconv.ParseInt(v, 10, 64); err == nil {
@@ -42,6 +49,10 @@ func main() {
 		os.Exit(cmdGen(os.Args[2:]))
 	case "digest":
 		os.Exit(cmdDigest(os.Args[2:]))
+	case "apphash":
+		os.Exit(cmdApphash(os.Args[2:]))
+	case "minimise":
+		os.Exit(cmdMinimise(os.Args[2:]))
 	default:
 		fmt.Fprintln(os.Stderr, "unknown command", os.Args[1])
 		os.Exit(2)
@@ -63,6 +74,12 @@ type RunRecord struct {
 
 // executeSchedule runs one schedule from genesis with the monitors of prop.
 func executeSchedule(s *Schedule, prop string, kf *KnownFindings, verbose bool) (*Runner, error) {
+	if prop == "C18" {
+		return executeC18(s, kf, verbose)
+	}
+	if prop == "C19" {
+		return executeC19(s, kf, verbose)
+	}
 	w, err := NewWorld(s.Config)
 	if err != nil {
 		return nil, err
@@ -142,6 +159,20 @@ func cmdWorker(args []string) int {
 		if err != nil {
 			fmt.Fprintf(os.Stderr, "run %d: world construction failed: %v\n", run, err)
 			return 2
+		}
+		if *prop == "C19" && run%8 == 0 && len(r.Viols) == 0 {
+			// (b) the same schedule in fresh processes at GOMAXPROCS 1 and 16: identical app hash per block
+			self, _ := os.Executable()
+			msg, err := crossProcess(s, *out, self)
+			if err != nil {
+				fmt.Fprintln(os.Stderr, err)
+				return 2
+			}
+			r.Stats.Clauses["C19.b"]++
+			r.Stats.Probes["c19_cross_process_replays"]++
+			if msg != "" {
+				r.Viols = append(r.Viols, ViolationRec{Property: "C19", Clause: "C19.b", Block: 0, Step: "cross-process", Detail: msg, Class: "app-hash-differs-across-processes"})
+			}
 		}
 		rec := RunRecord{Run: run, Stats: r.Stats, WallMs: time.Since(t0).Milliseconds(), NBlocks: len(s.Blocks)}
 		if len(r.Viols) > 0 {
@@ -340,6 +371,22 @@ func cmdCheck(args []string) int {
 		}
 	}
 
+	// ---- 1b. C19 static tripwire (supplementary; the dynamic sibling/process comparison is the basis of the level)
+	var tripReport map[string]any
+	if *prop == "C19" {
+		var flagged []string
+		tripReport, flagged = runTripwire(envStr("VERIF_REPO", "/repo"))
+		if len(flagged) > 0 {
+			path := filepath.Join(outDir, "static-tripwire.json")
+			_ = saveJSON(path, tripReport)
+			for _, f := range flagged {
+				fmt.Println("violation: C19.static [static-tripwire]", f)
+			}
+			violLines = append(violLines, fmt.Sprintf("VIOLATION property=%s replay=%s", *prop, path))
+			exit = 1
+		}
+	}
+
 	// ---- 2. seeded search
 	var cmds []*exec.Cmd
 	for i := 0; i < workers; i++ {
@@ -413,6 +460,9 @@ func cmdCheck(args []string) int {
 	// ---- 5. evidence
 	wall := time.Since(start).Seconds()
 	ev := agg.evidence(*prop, *tier, seed, wall, searchWall, workers, outDir, witness, len(classOrder))
+	if tripReport != nil {
+		ev["coverage"].(map[string]any)["static_tripwire"] = tripReport
+	}
 	evPath := filepath.Join(*verif, "evidence", *prop+".json")
 	_ = os.MkdirAll(filepath.Dir(evPath), 0o755)
 	if err := saveJSON(evPath, ev); err != nil {
@@ -777,4 +827,54 @@ func init() {
 	monitorRegistry["C13"] = func(s *Schedule) []Monitor { return []Monitor{newMonC13()} }
 	nontrivialRule["C13"] = "at least one explicit or implicit claim was compared with the eager entitlement ledger"
 	expectedProbes["C13"] = []string{"c13_settlement", "c13_two_assets_on_one_validator", "c13_new_position_delegate", "c13_grow_existing_delegate", "c13_new_position_redelegate", "c13_grow_existing_redelegate"}
+}
+
+func init() {
+	monitorRegistry["C14"] = func(s *Schedule) []Monitor { return []Monitor{newMonC14()} }
+	nontrivialRule["C14"] = "at least one end-of-block applied a due weight decay (range and initialisation clauses are evaluated after every step regardless)"
+	expectedProbes["C14"] = []string{"c14_multi_interval_decay", "c14_decay_exactly_at_boundary", "c14_clamped_at_min", "c14_clamped_at_max", "c14_warm_up_crossed", "c14_weight_change_op", "c14_weight_change_end", "c14_pending_checked"}
+}
+
+func init() {
+	monitorRegistry["C16"] = func(s *Schedule) []Monitor { return []Monitor{newMonC16()} }
+	nontrivialRule["C16"] = "at least one governance message (create/update/delete/params, direct or legacy) was delivered"
+	expectedProbes["C16"] = []string{"c16_wrong_authority_user", "c16_wrong_authority_module", "c16_wrong_authority_garbage", "c16_wrong_authority_empty", "c16_handler_panicked_on_input", "c16_aborted_by_gas", "c16_create_accepted", "c16_delete_accepted", "c16_update_of_staked_asset", "c16_update_mid_warm_up", "c16_params_accepted"}
+}
+
+func init() {
+	nontrivialRule["C18"] = "at least one export -> wipe -> import was performed on the re-imported run and the continuation was compared step by step with the original run"
+	expectedProbes["C18"] = []string{"c18_export_with_pending_unbondings", "c18_export_with_pending_redelegations", "c18_export_with_weight_snapshots", "c18_export_with_shared_bucket", "c18_export_with_merged_redelegation_record", "c18_export_with_rebalance_pending"}
+}
+
+func init() {
+	nontrivialRule["C19"] = "every block of the run was executed three times (two sibling branches and the committed execution) and the transcripts compared"
+	expectedProbes["C19"] = []string{"c19_validator_with_3_assets", "c19_validator_with_4_reward_indexes", "c19_cross_process_replays"}
+}
+
+// cmdMinimise: verif-sim minimise <in.json> <out.json> ; shrinks the first violation of the schedule's property.
+func cmdMinimise(args []string) int {
+	if len(args) < 2 {
+		fmt.Fprintln(os.Stderr, "usage: minimise <in> <out>")
+		return 2
+	}
+	rf, err := loadReplay(args[0])
+	if err != nil {
+		fmt.Fprintln(os.Stderr, err)
+		return 2
+	}
+	kf := loadKnown("/verif")
+	r, err := executeSchedule(&rf.Schedule, rf.Schedule.Property, kf, false)
+	if err != nil || len(r.Viols) == 0 {
+		fmt.Println("no violation to minimise")
+		return 0
+	}
+	v := r.Viols[0]
+	ms, mv := Minimise(&rf.Schedule, &v, kf, 90*time.Second)
+	if ms == nil {
+		fmt.Println("minimisation failed")
+		return 2
+	}
+	_ = saveJSON(args[1], &ReplayFile{Schedule: *ms, Violation: mv})
+	fmt.Printf("minimised to %d blocks: %s [%s]\n", len(ms.Blocks), mv.Clause, mv.Class)
+	return 0
 }
